@@ -395,21 +395,18 @@ pub fn canon_stdin() {
                 }
                 i += 2;
             } else if toks[i] == "Tj" && i + 2 < toks.len() {
-                // Hayson dateTime: `val` through DateTime::parse_from_rfc3339, then re-zoned to `tz` (as parse_datetime does)
+                // Hayson dateTime token: chrono / chrono-tz evaluate it through the real reader (as for `Tl`)
                 let val = unh(toks[i + 1]).unwrap_or_default();
                 let tz = if toks[i + 2] == "-" { None } else { unh(toks[i + 2]) };
-                match DateTime::parse_from_rfc3339(&val) {
-                    Ok(date) => match tz {
-                        Some(tz) => {
-                            use chrono::{Offset, Utc};
-                            match libhaystack::timezone::make_date_time_with_tz(&date.with_timezone(&Utc.fix()), &tz) {
-                                Ok(dt) => w_val(&Value::DateTime(dt.into()), &mut res),
-                                Err(_) => bad = true,
-                            }
-                        }
-                        None => w_val(&Value::DateTime(date), &mut res),
-                    },
-                    Err(_) => bad = true,
+                let mut m = serde_json::Map::new();
+                m.insert("_kind".into(), serde_json::Value::String("dateTime".into()));
+                m.insert("val".into(), serde_json::Value::String(val));
+                if let Some(tz) = tz {
+                    m.insert("tz".into(), serde_json::Value::String(tz));
+                }
+                match serde_json::from_value::<Value>(serde_json::Value::Object(m)) {
+                    Ok(v @ Value::DateTime(_)) => w_val(&v, &mut res),
+                    _ => bad = true,
                 }
                 i += 3;
             } else if toks[i] == "ns" && i + 2 < toks.len() {
